@@ -85,6 +85,14 @@ func EmitC05(dir, pkg, genBin string, defs []*C05Def) error {
 	for _, d := range defs {
 		name := fmt.Sprintf("G%d", d.ID)
 		out := filepath.Join(dir, fmt.Sprintf("g%d_gen.go", d.ID))
+		if d.ID%3 == 0 {
+			// regenerating is the normal use of --output: the file already holds the (longer) output of an earlier run,
+			// none of which may survive
+			stale := "package " + pkg + "\n\n" + strings.Repeat("stale_line_of_an_earlier_longer_output(\n", 20000)
+			if err := os.WriteFile(out, []byte(stale), 0o644); err != nil {
+				return err
+			}
+		}
 		cmd := exec.Command(genBin, "gen", "lexer", pkg, "--name", name, "--output", out)
 		cmd.Stdin = bytes.NewReader(RulesJSON(d.RS))
 		var stderr bytes.Buffer
